@@ -1,7 +1,7 @@
 PROP = dict(
     gen=["charsets", "detect", "knownbad"],
-    proof_files=["Properties/C09.v", "Proofs/DetectProofs.v", "Proofs/DetectBits.v", "Proofs/CharsetProofs.v", "Model/IntervalMap.v"],
-    model_files=["Model/Detect.v", "Model/Charset.v"],
+    proof_files=["Properties/C09.v", "Proofs/DetectProofs.v", "Proofs/DetectBits.v", "Proofs/CharsetProofs.v", "Proofs/CharsetRoundtrip.v", "Proofs/ComposePipeline.v", "Model/IntervalMap.v"],
+    model_files=["Model/Detect.v", "Model/Charset.v", "Model/Splitter.v", "Model/Compose.v", "Model/ComposePipeline.v"],
     trusted=["Gen/Detect.v is the complete per-rune tabulation of DataCoding.Validate (7 codings), BestCoding, BestSafeCoding, the GSM 7-bit "
              "encoder and the splitter widths over all 1,112,064 scalar values (dumper: harness/gen_detect.go); Gen/Charsets.v as for C17",
              "Gen/KnownBad.v is generated from the committed known/C09-D17-<coding>.ranges files (the harness matcher reads the same bytes)"],
@@ -20,7 +20,8 @@ MANIFEST = dict(
               "known-bad set read from committed range files; lifting to texts by induction) + vm_compute correspondence",
     text="Theorems in coq/Properties/C09.v: for every scalar value r outside the committed known-bad set of the coding that BestCoding / BestSafeCoding "
          "returns, that coding's encoder accepts r and decode(encode r) = r; for every text the same (plus the GSM 03.38 trailing-CR exclusion); "
-         "Compose/Parse of a text that fits; refutation witnesses for the unrestricted statement (U+0100, a mixed text, GSM text ending in CR at 8k septets).",
+         "Compose/Parse of a text that fits; the pipeline BestCoding -> ComposeMultipartShortMessage never fails for lack of an encoding and its parts decode back to "
+         "pieces that join to the text (C09_pipeline_partial); the known-bad sets are tight (C09_known_bad_tight: subset of validate minus accept); refutation witnesses for the unrestricted statement (U+0100, a mixed text, GSM text ending in CR at 8k septets).",
     note="Known findings: D17 (alphabet tables admit unencodable runes, 5 codings, pinned by TestBestCoding) and the GSM 7-bit 8k-septet trailing CR ambiguity. "
          "Trusted: Coq kernel + vm_compute; the Go table dumper; rune-wise independence of the codecs (validated by cases). No axioms.",
 )
